@@ -1141,7 +1141,8 @@ DLLIMPORT cfg_value_t *cfg_setopt(cfg_t *cfg, cfg_opt_t *opt, const char *value)
 				return NULL;
 			}
 
-			sec->flags = cfg->flags;
+			/* free-form keys are a property of the declared section, not of what it contains */
+			sec->flags = cfg->flags & ~CFGF_KEYSTRVAL;
 			if (is_set(CFGF_KEYSTRVAL, opt->flags))
 				sec->flags |= CFGF_KEYSTRVAL;
 			sec->line = cfg->line;
